@@ -173,13 +173,15 @@ def root_of(E, ptr, depth=0):
         H, coll, n = ck
         # element size of the chunked slice (not of the pointer it was cast to)
         esz = None
+        full = coll
+        coll = chunk_source(coll)[0]
         if coll[0] in ('p', 'v'):
             ty = LN.pointee(E.fn.local_ty(coll[1])) or ''
             if ty.startswith('[') and ty.endswith(']'):
                 esz = LN.sizeof(ty[1:-1].split(';')[0])
         if esz is None:
             return None, steps, off
-        steps.append((H, ('chunks', coll, n), {'': Fraction(n * esz)}))
+        steps.append((H, ('chunks', full, n), {'': Fraction(n * esz)}))
         p = Ptr(('slice', coll), {}, p.elem)
     # index-derived row steps (`base.add(j * stride)`): same meaning as a pointer bumped by `stride` in every iteration of loop H
     for k in list(off):
@@ -312,6 +314,15 @@ def bump_view(E):
             a.value = subv(a.value)
     E.local_mem = {k: [(o, subv(v)) for o, v in lst] for k, lst in E.local_mem.items()}
     return E
+
+
+def chunk_source(coll):
+    """The slice a chunk iterator runs over: (x, None) for x itself, (x, end) for the prefix `x[..end]` (a safe index expression: inside x,
+    starting at the first element of x)."""
+    mm = m(('call~', ('::index', '::index_mut'), ('$x', ('agg', '$adt', ('$end',)))), norm(coll))
+    if mm is not None and isinstance(mm['$adt'], tuple) and len(mm['$adt']) > 2 and mm['$adt'][2] == 'RangeTo' and mm['$x'][0] in ('p', 'v'):
+        return mm['$x'], mm['$end']
+    return norm(coll), None
 
 
 def chunk_base(base):
